@@ -219,3 +219,21 @@ func addrOf(fv reflect.Value) reflect.Value {
 	p.Elem().Set(fv)
 	return p
 }
+
+// skipNilEmbedded wraps an index based value function of a field promoted through an embedded struct pointer: when a
+// pointer on the way to the field is nil the field is omitted (as encoding/json does) instead of panicking.
+func skipNilEmbedded(f valFunc) valFunc {
+	return func(fi *finfo, rv reflect.Value, addr uintptr) (any, reflect.Value, bool) {
+		pv := rv
+		for _, i := range fi.index[:len(fi.index)-1] {
+			pv = pv.Field(i)
+			if pv.Kind() == reflect.Ptr {
+				if pv.IsNil() {
+					return nil, nilValue, true
+				}
+				pv = pv.Elem()
+			}
+		}
+		return f(fi, rv, addr)
+	}
+}
